@@ -145,8 +145,13 @@ class BatchSimulation():
 
     def load_results(self):
         """Load results from disk."""
-        for simulation in self._simulations:
-            simulation.load_results(self._output_file)
+        for i, simulation in enumerate(self._simulations):
+            # Simulations with the same inputs each keep their own record
+            occurrence = sum(
+                1 for previous in self._simulations[:i]
+                if previous._inputs == simulation._inputs
+            )
+            simulation.load_results(self._output_file, occurrence)
 
     def on_update(self, n_trials: int):
         """Function that gets called on every update.
